@@ -33,9 +33,12 @@ def main(job_path, out_path):
     wrap("random_str", lambda r, n, alphabet: len(r) == n and all(c in alphabet for c in r))
 
     jobs = json.load(open(job_path))
+    if os.environ.get("VERIF_JOB_ORDER") == "reverse":
+        jobs = jobs[::-1]
     results = []
     for job in jobs:
-        schemas = [am.g_schema(s) for s in job["seq"]]
+        schemas = [(am.g_schema(s["a"]) + am.g_schema(s["b"])) if "x" in s else am.g_schema(s)
+                   for s in job["seq"]]
         runs = []
         for rep in range(2):
             del draws[:]
